@@ -10,8 +10,8 @@ def run(ctx):
         ctx.run_shards(b, "TestVerifC04", 16, 900 if ctx.tier == "quick" else 3400, "c04")
     return driver.finish(
         ctx, "exploration",
-        "three monitors. (A) wire observer: real client <-> recording relay <-> real server for carrier in {tcp, unix, ws, udp(KCP), dns, tcp+tls, wss, "
-        "stdio(no relay), udp+secret} x server certificate {none, good, untrusted|wronghost|expired} x client --secure x client --insecure (+ client without CA); "
+        "three monitors. (A) wire observer: real client <-> recording relay <-> real server for carrier in {tcp, unix, ws, udp(KCP), dns, tcp+tls, unix+tls, wss, "
+        "stdio and stdio+tls (no relay: flags only), udp+secret} x server certificate {none, good, untrusted|wronghost|expired} x client --secure x client --insecure (+ client without CA); "
         "the application payload is a random 24-byte marker repeated 400x (80x over DNS) in both directions; the capture is de-framed (websocket frames unmasked, "
         "DNS questions/answers decoded with the repository's helpers under every codec, KCP datagrams searched as they are) and searched for any 16-byte window of "
         "the marker stream. Oracle: both ends agree on secure (client: ClientConnection.Secure(); server: server.session hook); a session either end calls secure, and "
@@ -23,7 +23,8 @@ def run(ctx):
         "Protocol-Version, against the real client command x --secure x --insecure; oracle: security required => the scripted server never receives the marker in "
         "clear and never serves a logical connection without a completed TLS handshake; StartTLS advertised (token present in the list) => payload never in clear; "
         "client reports secure => TLS handshake completed. (C) tcp+tls, unix+tls, https, stdio+tls endpoints against a scripted plaintext client and the real client "
-        "with the plain scheme: no 200/101, no server.session event, no logical connection served. Stall rule, no deadlines. "
+        "with the plain scheme: no 200/101 in clear, no server.session event that is not secure, no logical connection served in plaintext; plus one observation (never judged): "
+        "a hand-written client ignoring the real server's StartTLS offer. Stall rule, no deadlines. "
         "Distinct = (monitor, carrier/transport, certificate, flags, script, peer); non-trivial = the case produced a wire capture / reached the scripted server.",
         ["loopback sockets and in-process pipes stand for the network",
          "interpretation (DESIGN.md): a hand-written client that ignores an offered StartTLS against the real server is outside the property",
